@@ -933,8 +933,12 @@ class FileHashStore(HashStore):
                             self.fhs_logger.debug(sync_begin_debug_msg)
                             self.metadata_locked_docs_th.append(pid_doc)
                     try:
-                        # Mark metadata doc for deletion
-                        objects_to_delete.append(self._rename_path_for_deletion(path))
+                        # Mark metadata doc for deletion, unless it has been deleted since the
+                        # directory was listed (deleting what does not exist is a no-op)
+                        if os.path.isfile(path):
+                            objects_to_delete.append(
+                                self._rename_path_for_deletion(path)
+                            )
                     finally:
                         # Release pid
                         end_sync_debug_msg = (
